@@ -313,6 +313,36 @@ pub fn enumerate_singles(b: &Base, seed: u64, thorough: bool) -> Vec<Fault> {
                 out.push(sp("line_swap", l.start, n.end, &sw));
             }
         }
+        // list-valued lines (STREAM_TYPE, OPTION[..], STREAM_WIN[..], GV_OFF_CONTEXT): one item more / less / twice
+        {
+            let vend = l.end.saturating_sub(1); // before the '\n'
+            if l.value_start < vend {
+                let val = &bytes[l.value_start..vend];
+                let items: Vec<&[u8]> = val.split(|b| *b == b',').collect();
+                let last = items.last().copied().unwrap_or(&[]);
+                if !last.is_empty() {
+                    let mut more = val.to_vec();
+                    more.push(b',');
+                    more.extend_from_slice(last);
+                    out.push(sp("list_item_dup", l.value_start, vend, &more));
+                    let mut extra = val.to_vec();
+                    extra.extend_from_slice(b",BAP");
+                    out.push(sp("list_item_new", l.value_start, vend, &extra));
+                    if items.len() >= 2 {
+                        let keep = val.len() - last.len() - 1;
+                        out.push(sp("list_item_drop", l.value_start, vend, &val[..keep]));
+                        let mut rev: Vec<u8> = Vec::new();
+                        for (k, it) in items.iter().rev().enumerate() {
+                            if k > 0 {
+                                rev.push(b',');
+                            }
+                            rev.extend_from_slice(it);
+                        }
+                        out.push(sp("list_reversed", l.value_start, vend, &rev));
+                    }
+                }
+            }
+        }
         // key mangled, value emptied, colon removed
         out.push(sp("line_key", l.start, l.start + 1, b"X"));
         out.push(sp("line_value_empty", l.value_start, l.end.saturating_sub(1), &[]));
